@@ -1300,3 +1300,55 @@ def unit_nameutils(inj, scratch):
     inj.append(rel, H('nameutils.kani.rs'))
     return dict(functions=[fn_record(s, 'has_extension', 'K', how='whole real function; postcondition asserted on bounded symbolic names'),
                            fn_record(s, 'is_hidden', 'K', how='whole real function; postcondition asserted on bounded symbolic names')], dropped=[])
+
+
+# --------------------------------------------------------------------------------------------------
+# conforms(): operand evaluation of a comparison; get_function_value(): aggregate / scalar dispatch (shim world)
+# --------------------------------------------------------------------------------------------------
+def unit_evalshim(inj, scratch):
+    frag_begin(inj)
+    s = src('src/searcher.rs', scratch)
+    it = s.fn('conforms', impl='Searcher')
+    span = s.body_span(it)
+    m1 = s.find_one(r'let\s+field_value\s*=\s*self\.get_column_expr_value\(', span, what='conforms: let field_value = self.get_column_expr_value(')
+    m2 = s.find_one(r'result\s*=\s*match\s+field_value\.get_type\(\)\s*\{', span, what='conforms: result = match field_value.get_type() {')
+    if not m1.start() < m2.start():
+        raise AnchorLost('conforms: operand evaluation does not precede the type dispatch')
+    # the statements may be preceded by other lets of the same block (e.g. a shared scratch map): start at the block start
+    k = m1.start()
+    depth = 0
+    while k > span[0]:
+        ch = s.mask[k]
+        if ch == '}':
+            depth += 1
+        elif ch == '{':
+            if depth == 0:
+                break
+            depth -= 1
+        k -= 1
+    ops = dedent(s.text[k + 1:m2.start()].strip())
+    it2 = s.fn('get_function_value', impl='Searcher')
+    fbody = dedent(s.text[it2['open']:it2['end']])
+    text = f'''pub mod evalshim {{
+{H('frag_evalshim_prelude.rs')}
+impl Searcher {{
+    // ---- verbatim: the statements of conforms() that evaluate the two operands of a comparison ----
+    pub fn frag_operands(&mut self, entry: &DirEntry, file_info: &Option<FileInfo>, expr: &Expr) -> (Variant, Variant) {{
+        {ops}
+        (field_value, value)
+    }}
+    // ---- verbatim: body of Searcher::get_function_value ----
+    pub fn get_function_value(&mut self, entry: Option<&DirEntry>, file_info: &Option<FileInfo>, file_map: &mut HashMap<String, String>,
+                              buffer_data: Option<&Vec<HashMap<String, String>>>, column_expr: &Expr) -> Variant {fbody}
+}}
+{H('frag_evalshim.kani.rs')}
+}}
+'''
+    inj.new_file(FRAG_FILE, text)
+    r, d = frag_record('evalshim::Searcher::frag_operands', 'src/searcher.rs', 'fn conforms / all statements of the comparison block in front of `result = match field_value.get_type() {` (verbatim)',
+                       ops, ops, ['Searcher / Expr / Variant / HashMap -> shim types; get_column_expr_value records which expression it evaluates and whether its cache map was empty'],
+                       'get_column_expr_value itself (C15.minus.column), the typed arms (C02.cmp.*)')
+    r2, d2 = frag_record('evalshim::Searcher::get_function_value', 'src/searcher.rs', 'impl Searcher / fn get_function_value (whole body, verbatim, on the shim world)',
+                         fbody, fbody, ['function::get_value / function::get_aggregate_value -> recording stubs; Function -> shim with is_aggregate_function()'],
+                         'the aggregate and scalar implementations themselves (C07.*, C16.*)')
+    return dict(functions=[r, r2], dropped=[d, d2])
